@@ -38,7 +38,7 @@ func TestDifferential(t *testing.T) {
 	if err != nil {
 		t.Fatal(err)
 	}
-	known := map[string]string{"main": "", "run": "", "chain": "", "emit": "", "base.tag": "", "structs": "", "objects": "", "firstChooser.choose": "", "lastChooser.choose": "", "describePair": ""}
+	known := map[string]string{"main": "", "run": "", "chain": "", "emit": "", "base.tag": "", "structs": "", "objects": "", "firstChooser.choose": "", "lastChooser.choose": "", "describePair": "", "copies": ""}
 	_, _, rep, err := Normalize(fset, files, pkg, info, known, check)
 	if err != nil {
 		t.Fatalf("normalise: %v", err)
